@@ -28,7 +28,8 @@ PagesE == {<<InsertB("set", <<Assign("z", StrL("page"), 1), H("s")>>, 1)>>,
            <<InsertB("use", <<P(Var("z")), Assign("w", IntL(1), 1)>>, 1), InsertB("inner", <<Assign("z", StrL("in"), 1), P(Var("w"))>>, 1)>>,
            <<InsertE("use", Var("z"), 1), InsertB("set", <<Assign("fresh", IntL(3), 1)>>, 1), InsertB("inner", <<P(Var("fresh"))>>, 1)>>}
 \* contents an insert may have for reserve r
-InsForms(r) == {InsertE(r, IntL(0), 1), InsertE(r, BoolL(FALSE), 1), InsertE(r, FloatL(0, 0), 1), InsertE(r, StrL(""), 1), InsertE(r, NilL, 1),   \* falsy values are values
+InsForms(r) == {InsertE(r, Tern(Var("show"), StrL("yes-" \o r), StrL("no")), 1), InsertE(r, Tern(BoolL(FALSE), IntL(1), Bin("+", Var("t"), StrL("?"))), 1),   \* a ternary as the value
+                InsertE(r, IntL(0), 1), InsertE(r, BoolL(FALSE), 1), InsertE(r, FloatL(0, 0), 1), InsertE(r, StrL(""), 1), InsertE(r, NilL, 1),   \* falsy values are values
                 InsertB(r, <<>>, 1),                      \* a block-form insert with an empty body fills the reserve with nothing
                 InsertB(r, <<H(r), H(":"), P(Var("t"))>>, 1), InsertE(r, StrL("lit-" \o r), 1), InsertE(r, Bin("+", Var("t"), StrL("!")), 1),
                 InsertB(r, <<If(<<Br(Var("show"), <<H("s")>>)>>, <<H("n")>>, 1)>>, 1)}
